@@ -24,12 +24,19 @@ MAXDATAS = [4096, 8192, 65536, 1024 * 1024, 5000, 2 * 1024 * 1024, 0xFFFFFFFF, 0
 STRAYS = [[], [("OKAY", 5, 6, b"")], [("CLSE", 9, 1, b""), ("WRTE", 9, 1, b"leftover")], [("WRTE", 1, 1, b"x" * 100), ("OKAY", 1, 1, b""), ("CLSE", 1, 1, b"")]]
 
 
+def pub_text(kid):
+    # (the comment of a public key is free text: every fourth key has a non-ASCII login / host name in it)
+    return ("PUBKEY-%d user@host" % kid) if kid % 4 != 2 else ("PUBKEY-%d jos\u00e9@b\u00fcro-\u65e5\u672c" % kid)
+
+
 class KeyStub(object):
-    def __init__(self, kid, pub_as_str=False):
+    def __init__(self, kid, pub_as_str=False, bufs=None):
         self.kid = kid
         self.calls = []
         self.pub_calls = 0
         self.pub_as_str = pub_as_str
+        self.pub_as_bytearray = (not pub_as_str) and kid % 3 == 1
+        self._bufs = bufs if bufs is not None else {}
 
     def sig_for(self, token):
         return b"SIG" + bytes([self.kid]) + hashlib.sha256(bytes([self.kid]) + bytes(token)).digest()
@@ -40,8 +47,11 @@ class KeyStub(object):
 
     def GetPublicKey(self):
         self.pub_calls += 1
-        s = "PUBKEY-%d user@host" % self.kid
-        return s if self.pub_as_str else s.encode()
+        s = pub_text(self.kid)
+        if self.pub_as_bytearray:
+            # a signer that hands out the buffer it keeps (the caller must not change it: the next handshake gets the same object)
+            return self._bufs.setdefault(self.kid, bytearray(s.encode("utf8")))
+        return s if self.pub_as_str else s.encode("utf8")
 
 
 def configs():
@@ -102,7 +112,8 @@ def one_connect(sess, cfg, maxdata, strays, stats, rng, real_keys=None, kid_base
     if real_keys is not None:
         keys = real_keys
     else:
-        keys = [KeyStub(kid_base + i + 1, pub_as_str=(rng.random() < 0.3)) for i in range(nkeys)]     # (a later connect() on the same object is given OTHER keys)
+        bufs = sess.__dict__.setdefault("_pub_bufs", {})      # (the key store behind the signers outlives one connect(): a later connect() with the same key gets the same buffer)
+        keys = [KeyStub(kid_base + i + 1, pub_as_str=(rng.random() < 0.3), bufs=bufs) for i in range(nkeys)]     # (a later connect() on the same object is given OTHER keys)
     accept = int(oc[3:]) if oc.startswith("key") else None
 
     if real_keys is None:
@@ -117,6 +128,7 @@ def one_connect(sess, cfg, maxdata, strays, stats, rng, real_keys=None, kid_base
         delay = 0.0 if auth_timeout == 0 else delay        # 0 = do not wait (the answer is already there); None = wait as long as it takes
     sim.auth = simdev.AuthPlan(require=(oc != "noauth"), verify=verify, accept_pubkey=(oc == "pubkey"), pubkey_delay=delay if oc == "pubkey" else 0.0,
                                bad_challenge_at=cfg["bad"], strays=STRAYS[strays], challenge_arg0=rng.choice([0, 2, 3, 7]), rechallenge_after_pubkey=cfg.get("rechal", 0))
+    sim.auth.strays_where = ["first", "sig", "all"][(strays + nkeys + (1 if cfg["cb"] == "rec" else 0)) % 3]      # stray packets also between a signature and its answer
     sim.maxdata = maxdata
     sim.silent = False
     cb_calls = []
@@ -188,7 +200,7 @@ def one_connect(sess, cfg, maxdata, strays, stats, rng, real_keys=None, kid_base
             if cfg["cb"] == "raise":
                 result = ("exc", "RuntimeError")
             else:
-                pub = keys[0].GetPublicKey() if real_keys is not None else ("PUBKEY-%d user@host" % keys[0].kid).encode()
+                pub = keys[0].GetPublicKey() if real_keys is not None else pub_text(keys[0].kid).encode("utf8")
                 if isinstance(pub, str):
                     pub = pub.encode()
                 exp.append(("AUTH", wire.AUTH_RSAPUBLICKEY, 0, bytes(pub) + b"\0"))
